@@ -967,13 +967,12 @@ func evalFunctionApplication(node *jparse.FunctionApplicationNode, data reflect.
 
 	// If the left hand side is not callable, call the right
 	// hand side using the left hand side as the argument.
-	if !jtypes.IsCallable(lhs) {
+	f1, ok := jtypes.AsCallable(lhs)
+	if !ok {
 		return f2.Call([]reflect.Value{lhs})
 	}
 
 	// Otherwise, combine both sides into a single callable.
-	f1, _ := jtypes.AsCallable(lhs)
-
 	f := &chainCallable{
 		callables: []jtypes.Callable{
 			f1,
